@@ -271,8 +271,7 @@ def cut(rec, segments, what):
 # ------------------------------------------------------------------------------------------------
 # expectation = {'tags': {tag: bases}, 'qtags': {tag: phred chars}, 'forbidden': [tags],
 #                'emit': {mate: [(seq, qual, {extra tag expectations}), ... alternatives]},
-#                'covered': {mate: set(positions recorded in a tag)}, 'bc_alias': alias, 'note': str}
-BASE_TAGS = ('RX', 'RQ', 'rS', 'lh', 'lq')
+#                'covered': {mate: set(positions recorded in a tag)}, 'alias': whitelist alias, 'note': str}
 
 
 def expect_row(row, rec, strip_poly_t=False):
@@ -312,8 +311,8 @@ def expect_row(row, rec, strip_poly_t=False):
         elif strip_poly_t and mate == 0:
             ins = seq[start:]
             k = len(ins) - len(ins.lstrip('T'))
-            # weak (code comment "Prune the poly T off R1 start"): any stripped base must be a T and at
-            # most one T may be left in front of a longer insert; an all-T insert may keep its last T
+            # weak (code comment "Prune the poly T off R1 start"): exactly the leading T's are stripped;
+            # an insert consisting only of T's may keep its last T
             for j in range(0, k + 1):
                 rest = ins[j:]
                 if j == k or (j == k - 1 and len(rest) == 1):
